@@ -94,11 +94,25 @@ func (providers *TokenProviders) ListProviders() ([]ProviderConfig, error) {
 }
 
 func (providers *TokenProviders) DeleteProvider(name string) error {
-	if _, ok := providers.Get(name); !ok {
+	// providers are kept, and looked up by their users, under the lower-cased name; the stored configuration keeps
+	// the name as it was given
+	key := strings.ToLower(name)
+	if _, ok := providers.Get(key); !ok {
 		return ErrLoginProviderNotFound
 	}
-	delete(*providers.Providers, name)
-	return providers.pm.DeleteProvider(name)
+	delete(*providers.Providers, key)
+	stored, err := providers.pm.ListProviders()
+	if err != nil {
+		return err
+	}
+	for _, p := range stored {
+		if strings.ToLower(p.Name) == key {
+			if err := providers.pm.DeleteProvider(p.Name); err != nil {
+				return err
+			}
+		}
+	}
+	return nil
 }
 
 func (providers *TokenProviders) GetProviderConfig(name string) (*ProviderConfig, error) {
